@@ -28,6 +28,7 @@ func init() {
 			{"C17-R4", "results collected from worker goroutines are not ordered by arrival", c17r4},
 			{"C17-R5", "stored EnvoyFilter patch values are neither aliased into generated objects nor edited", c17r5},
 			{"C17-R6", "generation stores only into configuration objects it created", c17r6},
+			{"C17-R7", "EDS locality groups are emitted in sorted order", c17r7},
 		},
 	})
 }
@@ -1600,5 +1601,117 @@ func c17r6(c *Ctx) {
 	}
 	c.Check("stores into API messages in the generation graph found", token.NoPos, nStores >= 20 && nFresh >= 15, fmt.Sprintf("%d stores into API message fields in the generation graph, %d into fresh objects; fewer than confirmed by hand", nStores, nFresh))
 	c.Infof("stores into API message fields: %d, into fresh objects: %d (of which %d by caller correlation)", nStores, nFresh, nCorr)
+	c.Floor(2)
+}
+
+// C17-R7: locality groups are emitted in sorted order. EndpointBuilder.generate groups the endpoints by locality and
+// hands the groups on as a list; the order of that list is the order of `endpoints` in the ClusterLoadAssignment. The
+// list is filled in a loop over the locality keys, and those keys were sorted: every append of a *LocalityEndpoints to
+// the result happens in a range loop over a slice that was handed to a sort routine on every path to the loop (a
+// "fewer than two elements" guard around the sort is accepted). Filling the list while walking the endpoints makes the
+// order of the groups the order in which a registry happened to deliver the endpoints.
+func c17r7(c *Ctx) {
+	p := c.P
+	fn := p.Func("pilot/pkg/xds/endpoints", "EndpointBuilder", "generate")
+	isGroupPtr := func(t types.Type) bool {
+		pt, ok := t.(*types.Pointer)
+		if !ok {
+			return false
+		}
+		n, ok := pt.Elem().(*types.Named)
+		return ok && n.Obj().Name() == "LocalityEndpoints"
+	}
+	loops := rangeLoops(fn)
+	n := 0
+	eachInstr(fn, func(ins ssa.Instruction) {
+		call, ok := ins.(*ssa.Call)
+		if !ok || !isAppendCall(ins) || len(call.Call.Args) != 2 {
+			return
+		}
+		sl, ok := call.Type().Underlying().(*types.Slice)
+		if !ok || !isGroupPtr(sl.Elem()) {
+			return
+		}
+		n++
+		// innermost range loop containing the append
+		var in *rangeLoop
+		for k := range loops {
+			l := &loops[k]
+			if l.Body != nil && l.Body.Dominates(call.Block()) {
+				if in == nil || in.Body.Dominates(l.Body) {
+					in = l
+				}
+			}
+		}
+		if in == nil || in.Over == nil {
+			c.Check("locality groups are appended in a loop over the sorted locality keys", call.Pos(), false,
+				"a locality group is appended to the result outside a range loop over the (sorted) locality keys")
+			return
+		}
+		over := in.Over
+		isSortOf := func(i ssa.Instruction) bool {
+			sc, ok := i.(*ssa.Call)
+			if !ok {
+				return false
+			}
+			callee := sc.Call.StaticCallee()
+			if callee == nil {
+				return false
+			}
+			o := callee
+			if callee.Origin() != nil {
+				o = callee.Origin()
+			}
+			if o.Pkg == nil {
+				return false
+			}
+			pp := o.Pkg.Pkg.Path()
+			if pp != "sort" && pp != "slices" && pp != istioMod+"/pkg/slices" {
+				return false
+			}
+			if !(strings.HasPrefix(o.Name(), "Sort") || o.Name() == "Strings" || o.Name() == "Slice" || o.Name() == "SliceStable" || o.Name() == "Stable") {
+				return false
+			}
+			for _, a := range sc.Call.Args {
+				a = unwrap(a)
+				if a == over || sameValue(a, over) {
+					return true
+				}
+			}
+			return false
+		}
+		// "fewer than two" guards of the same slice may bypass the sort
+		var small []Edge
+		for _, i := range allIfs(fn) {
+			v, neg := stripNot(i.Cond)
+			b, ok := v.(*ssa.BinOp)
+			if !ok {
+				continue
+			}
+			lc, ok := b.X.(*ssa.Call)
+			if !ok {
+				continue
+			}
+			if bi, ok := lc.Call.Value.(*ssa.Builtin); !ok || bi.Name() != "len" || !(lc.Call.Args[0] == over || sameValue(lc.Call.Args[0], over)) {
+				continue
+			}
+			k, ok := b.Y.(*ssa.Const)
+			if !ok || k.Value == nil {
+				continue
+			}
+			// len >= 2 / len > 1: the false edge has fewer than two
+			if (b.Op == token.GEQ && k.Int64() == 2) || (b.Op == token.GTR && k.Int64() == 1) {
+				idx := 1
+				if neg {
+					idx = 0
+				}
+				small = append(small, Edge{i.Block(), idx})
+			}
+		}
+		_, found := pathAvoidingE(fn.Blocks[0], nil, isSortOf, func(i ssa.Instruction) bool { return i.Block() == in.Body }, small, nil)
+		c.Check("locality groups are appended in a loop over the sorted locality keys", call.Pos(), !found,
+			"the list of locality groups is filled in a loop over a list that was not sorted on every path to the loop: the order of the localities in the ClusterLoadAssignment then follows the order in which the endpoints (or map keys) happened to come, which differs between istiod instances and after a resync for the same endpoint set")
+	})
+	c.Check("generate appends locality groups", fn.Pos(), n >= 1, "no append of a *LocalityEndpoints found in EndpointBuilder.generate")
 	c.Floor(2)
 }
